@@ -7,7 +7,7 @@
    listed class). *)
 From Coq Require Import QArith.
 From GJ Require Import Base Kernel KernelSpec KernelProofs IntersectsProofs Series SeriesSpec
-  Ring RingSpec PipProofs PairProofs Jordan JordanQ JordanGP Convex LineSound LineComplete JordanRect LineRect PointPoly Holes HoleBox.
+  Ring RingSpec PipProofs PairProofs Jordan JordanQ JordanGP Convex LineSound LineComplete JordanRect LineRect PointPoly Holes HoleBox HoleRing.
 Open Scope Z_scope.
 
 (* X contains a point: point membership (for a single point covering = meeting) *)
@@ -166,6 +166,14 @@ Theorem C03_ring_contains_line_strict_any_length : forall h qs, hole_ok h -> (2 
   (ring_contains_ring (Rg h) (Lr qs) false = true <-> (3 <= length h)%nat /\ line_strictly_inside h qs).
 Proof. exact rcr_line_strict_all. Qed.
 
+(* ... and of a closed ring of ANY size by a ring (the test Poly.IntersectsPoly applies to "the other polygon
+   lies in one of my holes"): true exactly when every rational point of every edge of the argument is
+   strictly inside *)
+Theorem C03_ring_contains_ring_strict_any_size : forall h f, hole_ok h -> (3 <= length f)%nat ->
+  (ring_contains_ring (Rg h) (Rg f) false = true <->
+   (3 <= length h)%nat /\ forall sg, In sg (ring_edges f) -> all_strictly_inside h (fst sg) (snd sg)).
+Proof. exact ring_contains_ring_strict_exact. Qed.
+
 Print Assumptions C03_rect_rect.
 Print Assumptions C03_ring_segment_strict_exact.
 Print Assumptions C03_ring_segment_strict_pointset.
@@ -182,3 +190,4 @@ Print Assumptions C03_line_contains_flat_rect_pointset.
 Print Assumptions C03_line_contains_rect_pointset.
 Print Assumptions C03_point_poly.
 Print Assumptions C03_ring_contains_line_strict_any_length.
+Print Assumptions C03_ring_contains_ring_strict_any_size.
